@@ -22,6 +22,12 @@ CHECKS = {
     "C18": dict(ready=True, category="exploration", technique="runtime monitoring: invariant monitor on the slot-machine state after every update with a recording distribution sampler, telemetry-parsing monitor for DynamicSelective, reference window/CV model for MinVariation, range monitor for termination estimates",
         text="Reward streams over 12 hostile classes (0, denormal ... 1e6) drive SlotMachine directly; after every update alpha/beta/v/mu invariants are asserted and every sampler call is checked by a recording sampler; DynamicSelective runs over scalar and N-objective contexts with own operators and its telemetry is parsed; termination estimates and the variation criterion are compared with an own model, unspecified boundary cases never decide.",
         note="|fitness| <= 1e150; undocumented estimator details (Bessel correction, signed mean) unspecified.", design_ref="DESIGN.md §3 C18"),
+    "C15": dict(ready=True, category="exploration", technique="runtime monitoring over schedules: same evaluation repeated under rayon pools of 1..16 threads with injected yields/sleeps at the task-interleaving point and per-worker recording, compared with a sequential reference scan; full solves under every pool layout judged by O1",
+        text="(a) PositionInsertionEvaluator::evaluate_all is run on the same InsertionContext under pools of 1,2,3,4,7,16 threads x repetitions with delays injected through the result selector (where rayon tasks interleave); result kind and cost vector must equal the lexicographic minimum of an independent nested sequential loop; the evidence counts distinct per-thread work partitions actually observed. (b) solves under ten pools x threads layouts are replayed by O1. Exploration over schedules is the right level: reduction-order bugs only show when the partitioning varies.",
+        note="Metric routing, default objectives, single-task jobs for the evaluator clause (multi-task permutations are sampled randomly); identity of job/route not compared (ties).", design_ref="DESIGN.md §3 C15"),
+    "C19": dict(ready=True, category="exploration", technique="runtime monitoring: structural invariant monitor evaluated after every public operation on the GSOM network (own capacity-enforcing, counting storage) and on the Rosomaxa population (via NetworkState), over hostile input streams",
+        text="After every store_batch/smooth/compact/on_generation the map is walked: unique coordinates equal to node identity, exact find(), finite weights of input dimension, storage within capacity, finite error measures, compaction never grows nor leaves < 4 nodes, conservation of stored individuals, phases only forward, elite within bounds; eleven stream classes incl. constant/subnormal/outlier/tiny-range inputs and all config knobs.",
+        note="Finite inputs |v| <= 1e12, documented config ranges; Node::error (+inf observed) is not among the judged error measures.", design_ref="DESIGN.md §3 C19"),
     "C03": dict(ready=True, category="exploration", technique="runtime monitoring: replay oracle recomputing schedule/load/distance/statistics/cost from routing data and visiting order, compared with every reported number",
         text="O1 replays each tour of each recorded solution from (visiting order, first departure): stop arrival/departure within the one-unit output rounding, per-stop load and cumulative distance exactly, tour and overall statistics, cost = fixed + distance*cd + duration*ct, and that the reported place tag belongs to a place explaining the reported interval.",
         note="Integral matrices/durations; fractional profile scale widens the per-leg split tolerance; tours with transit stops/commute only per-stop consistency (not generated).", design_ref="DESIGN.md §3 C03"),
